@@ -47,9 +47,10 @@ def ser_tokens(toks, hs=()):
 
 
 class DGen:
-    def __init__(self, rnd, layout=None):
-        self.r = rnd
-        self.l = layout or rnd
+    def __init__(self, rnd, layout=None, nl=None):
+        self.r = rnd                # structure: what the skeleton depends on
+        self.l = layout or rnd      # blanks, comments, line continuations
+        self.n = nl or rnd          # newline tokens at linebreak positions and ';' versus newline separators
         self.rich = True
         self.litonly = False
 
@@ -150,7 +151,7 @@ class DGen:
     def subst(self, d, ctx):
         r = self.r
         bq = ctx != "bq" and r.random() < 0.3
-        sub = DGen(self.r, self.l)
+        sub = DGen(self.r, self.l, self.n)
         sub.rich = False
         sub.litonly = bq            # inside backquotes the text is unescaped first: plain words only
         toks = sub.term(min(d, 1), top=not (r.random() < 0.3), plain=bq)
@@ -159,7 +160,7 @@ class DGen:
             return Part("Cb<" + ser_tokens(toks) + ">", "`" + text + "`")
         if text.startswith("("):
             text = " " + text
-        if text.endswith("\n") is False and "\n" in text and r.random() < 0.5:
+        if text.endswith("\n") is False and "\n" in text and self.n.random() < 0.5:
             text += "\n"
         return Part("Cd<" + ser_tokens(toks, hs) + ">", "$(" + text + ")")
 
@@ -290,20 +291,19 @@ class DGen:
 
     def nls(self, p=0.3, many=False):
         n = 0
-        if self.r.random() < p:
-            n = self.r.choice([1, 1, 2]) if many else 1
+        if self.n.random() < p:
+            n = self.n.choice([1, 1, 2])
         return [Tok("NL") for _ in range(n)]
 
-    def sep(self, top):
-        """separator: sep_op linebreak | newline_list"""
-        r = self.r
-        k = r.random()
+    def sep(self, top, amp_ok=True):
+        """separator: sep_op linebreak | newline_list ('&' is structure, ';' versus newline is layout)"""
+        amp = amp_ok and self.r.random() < 0.15
+        if amp:
+            return [Tok("AMP")] + ([] if top else self.nls(0.3))
         if top:
-            return [Tok("AMP" if k < 0.2 else "SEMI")]
-        if k < 0.45:
+            return [Tok("SEMI")]
+        if self.n.random() < 0.5:
             return [Tok("SEMI")] + self.nls(0.3)
-        if k < 0.55:
-            return [Tok("AMP")] + self.nls(0.3)
         return [Tok("NL")] + self.nls(0.2)
 
     def term(self, d, top=False, plain=False, end_sep=None):
@@ -312,8 +312,10 @@ class DGen:
         toks = self.andor(d, plain)
         for _ in range(r.choice([0, 0, 1, 2])):
             toks += self.sep(top) + self.andor(d, plain)
-        if end_sep or (end_sep is None and r.random() < 0.3):
+        if end_sep:
             toks += self.sep(top)
+        elif end_sep is None and self.n.random() < 0.3:
+            toks += self.sep(top, amp_ok=False)      # an optional trailing ';' or newline
         return toks
 
     def clist(self, d, end_sep, plain=False):
@@ -360,9 +362,9 @@ class DGen:
             k = r.random()
             if k < 0.55:
                 toks += self.nls(0.2) + [Tok("IN")] + [self.W(self.word(1)) for _ in range(r.choice([0, 1, 2, 3]))]
-                toks += [Tok(r.choice(["SEMI", "NL"]))] + self.nls(0.2)
-            elif k < 0.8:
-                toks += [Tok(r.choice(["SEMI", "NL"]))] + self.nls(0.2)
+                toks += [Tok(self.n.choice(["SEMI", "NL"]))] + self.nls(0.2)
+            elif self.n.random() < 0.6:
+                toks += [Tok(self.n.choice(["SEMI", "NL"]))] + self.nls(0.2)
             return toks + [Tok("DO")] + self.clist(d, True, plain) + [Tok("DONE")]
         if kind == "case":
             toks = [Tok("CASE"), self.W(self.word(1))] + self.nls(0.15) + [Tok("IN")] + self.nls(0.3)
